@@ -244,6 +244,23 @@ def exec_exact(case):
         k = int(np.argmax(np.abs(fac - want_f))) if fac.shape == (n,) else 0
         raise Violation(f"{kernel} acceptance factor for walker {k} is {fac[k] if fac.shape == (n,) else fac!r}, reference (Student-t density ratio) {want_f[k]!r}",
                         sig={"kind": "acceptance-factor", "kernel": kernel})
+    # ---- a2b: the same ModeStatistics object reused by a second kernel call with a different assignment vector of equal length
+    if K >= 2:
+        labels2 = (labels + 1) % K
+        runner2 = Runner(u, u.copy(), logl, blobs, labels2, beta, ms, ll, lambda v: v.copy(), None, 1, 1,
+                         np.array(periodic, dtype=int) if periodic else None, np.array(reflective, dtype=int) if reflective else None, False)
+        fac2 = np.asarray(lib_call(runner2._compute_acceptance_factor, up.copy(), lp.copy(), what="_compute_acceptance_factor (second call)"), dtype=float)
+        want2 = np.zeros(n)
+        if kernel == "tpcn":
+            for k in range(n):
+                lab = labels2[k]
+                mu, nu = ms.means[lab], float(ms.degrees_of_freedom[lab])
+                dl = float((u[k] - mu) @ Sinvs[lab] @ (u[k] - mu))
+                dp = float((up[k] - mu) @ Sinvs[lab] @ (up[k] - mu))
+                want2[k] = 0.5 * (d + nu) * (math.log1p(dp / nu) - math.log1p(dl / nu))
+        if fac2.shape != (n,) or np.max(np.abs(fac2 - want2)) > 1e-8 * (1 + np.max(np.abs(want2))):
+            raise Violation(f"{kernel} acceptance factor of a second kernel call that reuses the same mode statistics with other cluster labels is "
+                            f"{fac2.tolist()}, reference {want2.tolist()} (state carried over between calls)", sig={"kind": "acceptance-factor", "kernel": kernel})
     # ---- a4: oracle self-check (reference proposal is reversible for the Student-t, interior, no folding)
     if kernel == "tpcn" and not periodic and not reflective:
         for k in range(n):
